@@ -88,3 +88,23 @@ extern "C" void harness_tree_vs_paths() {
   VA(rev ? (ao < 0 && ah > 0) : (ao > 0 && ah < 0));
   verif_reach();
 }
+
+// C12: a clipper that has already executed, then receives shared reusable data, behaves like a fresh one given the same data
+extern "C" void harness_reuse_vs_fresh() {
+  ReuseableDataContainer64 rd; rd.AddPaths(clip0(), PathType::Clip, false);      // clip0's minimum sorts before subj0's
+  Clipper64 c;
+  c.AddSubject(subj0());
+  Paths64 s0; VA(c.Execute(ClipType::Union, FillRule::NonZero, s0));
+  c.AddReuseableData(rd);
+  Paths64 s1; bool ok1 = c.Execute(ClipType::Intersection, FillRule::NonZero, s1);
+  Clipper64 f; f.AddSubject(subj0()); f.AddReuseableData(rd);
+  Paths64 s2; bool ok2 = f.Execute(ClipType::Intersection, FillRule::NonZero, s2);
+  Clipper64 g; g.AddSubject(subj0()); g.AddClip(clip0());
+  Paths64 s3; bool ok3 = g.Execute(ClipType::Intersection, FillRule::NonZero, s3);
+  VA(ok1 && ok2 && ok3);
+  VA(s3.size() == 1 && s3[0].size() >= 3);
+  VA(same_paths(s1, s3)); VA(same_paths(s2, s3));
+  // the shared container is read-only during execution
+  VA(rd.minima_list_.size() == 1 && rd.vertex_lists_.size() == 1);
+  verif_reach();
+}
